@@ -105,7 +105,44 @@ func (x *Exec) loopCallsNamed(li *loopInfo, key string) bool {
 				return true
 			}
 			if callee := c.Common().StaticCallee(); callee != nil && x.L.FuncCon[funcKey(callee)] == nil && x.inlineable(callee) {
+				if x.fnCallsNamed(callee, key, map[*ssa.Function]bool{}) {
+					return true
+				}
+			}
+		}
+	}
+	return false
+}
+
+// fnCallsNamed: does fn (which would be inlined), or anything inlined into it, contain a call
+// recorded under the ghost key? Anything not resolvable statically counts as yes.
+func (x *Exec) fnCallsNamed(fn *ssa.Function, key string, seen map[*ssa.Function]bool) bool {
+	if seen[fn] {
+		return false
+	}
+	seen[fn] = true
+	if len(seen) > 40 {
+		return true
+	}
+	for _, b := range fn.Blocks {
+		for _, in := range b.Instrs {
+			if mc, ok := in.(*ssa.MakeClosure); ok {
+				if af, ok := mc.Fn.(*ssa.Function); ok && x.fnCallsNamed(af, key, seen) {
+					return true
+				}
+			}
+			c, ok := in.(ssa.CallInstruction)
+			if !ok {
+				continue
+			}
+			n := sanitize(callSiteName(c.Common()))
+			if n != "" && (n == key || len(key) > len(n) && key[:len(n)+1] == n+"_") {
 				return true
+			}
+			if callee := c.Common().StaticCallee(); callee != nil && x.L.FuncCon[funcKey(callee)] == nil && x.inlineable(callee) {
+				if x.fnCallsNamed(callee, key, seen) {
+					return true
+				}
 			}
 		}
 	}
